@@ -24,7 +24,7 @@ tail -3 /tmp/confirm-$id.without.log
 git apply $md/patch.diff
 echo "demo rc with=$rc_with without=$rc_without"
 echo "-- existing suite WITH change"
-go test -vet=off -count=1 -timeout 30m -skip 'ZZ|Demo|Seeded' . ./internal/... ./cmd/... > /tmp/confirm-$id.suite.log 2>&1; rc_suite=$?
+go test -vet=off -count=1 -timeout 120m -skip 'ZZ|Demo|Seeded|TestDB_Open_InitialMmapSize' . ./internal/... ./cmd/... > /tmp/confirm-$id.suite.log 2>&1; rc_suite=$?
 grep -E "^(ok|FAIL|--- FAIL)" /tmp/confirm-$id.suite.log | head
 echo "RESULT demo_with=$rc_with demo_without=$rc_without suite=$rc_suite"
 } > $log 2>&1
